@@ -29,6 +29,7 @@ import (
 	"github.com/nspcc-dev/neofs-node/verif/lib/seqx"
 	sw "github.com/nspcc-dev/neofs-node/verif/worlds/shardworld"
 	apistatus "github.com/nspcc-dev/neofs-sdk-go/client/status"
+	cid "github.com/nspcc-dev/neofs-sdk-go/container/id"
 	"github.com/nspcc-dev/neofs-sdk-go/object"
 	oid "github.com/nspcc-dev/neofs-sdk-go/object/id"
 )
@@ -56,10 +57,11 @@ const (
 	fBlobOpen
 	fBlobInit
 	fWCDir
+	fBlobWrite
 	nFaults
 )
 
-var faultName = []string{"none", "metabase-open-fails", "blobstor-close-fails", "blobstor-open-fails", "blobstor-init-fails", "write-cache-dir-unopenable"}
+var faultName = []string{"none", "metabase-open-fails", "blobstor-close-fails", "blobstor-open-fails", "blobstor-init-fails", "write-cache-dir-unopenable", "blobstor-write-fails"}
 
 type config struct {
 	WC   bool
@@ -92,7 +94,9 @@ type sys struct {
 	metaFail atomic.Bool
 	key      string
 	lastErr  bool // the most recent SetMode returned an error
-	steps    []string
+	// the mode the shard reports now was put in place by a SetMode call that returned an error
+	modeSetByFailed bool
+	steps           []string
 }
 
 func die(f string, a ...any) {
@@ -102,7 +106,8 @@ func die(f string, a ...any) {
 }
 
 func (c *config) open(dir string, s *sys) (*sw.World, error) {
-	cfg := sw.Config{Dir: dir, WriteCache: c.WC}
+	// payments on, container A unpaid since epoch 0: a new-epoch event wants to drop it
+	cfg := sw.Config{Dir: dir, WriteCache: c.WC, Payments: &sw.Payments{Unpaid: map[cid.ID]int64{sw.CID("A"): 0}}}
 	if s != nil {
 		cfg.WrapStorage = func(st common.Storage) common.Storage { s.fs = sw.NewFaultyStorage(st); return s.fs }
 		cfg.MetaOpenFile = func(p string, flag int, perm os.FileMode) (*os.File, error) {
@@ -242,6 +247,8 @@ func (s *sys) Apply(i int) (string, bool) {
 		s.fs.Arm(errInj, nil, nil, nil)
 	case fBlobInit:
 		s.fs.Arm(nil, errInj, nil, nil)
+	case fBlobWrite: // every Put/PutBatch into the blobstor fails while the switch runs (e.g. a flush)
+		s.fs.ArmWrites(errInj)
 	case fWCDir: // a regular file sits where the cache directory should be
 		if err := os.Rename(wcDir, away); err != nil {
 			die("%v", err)
@@ -250,10 +257,18 @@ func (s *sys) Apply(i int) (string, bool) {
 			die("%v", err)
 		}
 	}
+	reportedBefore := s.w.Sh.GetMode()
 	err := safe(func() error { return s.w.SetMode(m) })
+	switch {
+	case err == nil:
+		s.modeSetByFailed = false
+	case s.w.Sh.GetMode() != reportedBefore:
+		s.modeSetByFailed = true
+	}
 	// the fault lasts for this step only
 	s.metaFail.Store(false)
 	s.fs.Arm(nil, nil, nil, nil)
+	s.fs.ArmWrites(nil)
 	if f == fWCDir {
 		if e := os.Remove(wcDir); e != nil {
 			die("%v", e)
@@ -430,6 +445,52 @@ func (s *sys) Check() (fp string, what string) {
 		how += ":all-components-in-reported-mode"
 	}
 	trail := strings.Join(s.steps, " ; ")
+	// While the shard REPORTS a read-only mode its background jobs must not touch stored data,
+	// whatever the components underneath are really doing (C14's snapshot oracle, after every step).
+	if m.ReadOnly() {
+		before, err := sw.SnapPersisted(s.dir)
+		if err != nil {
+			die("%v", err)
+		}
+		wcBefore := s.w.WCCounters()
+		var bg []string
+		if s.c.WC && s.w.Tick() {
+			bg = append(bg, "flush tick")
+		}
+		if perr := safe(func() error { s.w.GCPass(); return nil }); perr != nil {
+			return how + ":reported=" + mname(m) + ":GCPass=PANIC", fmt.Sprintf("[%s] %s || %v", s.c.name(), trail, perr)
+		}
+		if perr := safe(func() error { s.w.NewEpoch(5); return nil }); perr != nil {
+			return how + ":reported=" + mname(m) + ":NewEpoch=PANIC", fmt.Sprintf("[%s] %s || %v", s.c.name(), trail, perr)
+		}
+		bg = append(bg, "GC pass", "new-epoch event")
+		after, err := sw.SnapPersisted(s.dir)
+		if err != nil {
+			die("%v", err)
+		}
+		d, err := before.Diff(after, s.dir)
+		if err != nil {
+			die("%v", err)
+		}
+		if wcAfter := s.w.WCCounters(); wcAfter != wcBefore {
+			d = append(d, "write-cache-accounting:"+wcBefore+"->"+wcAfter)
+		}
+		if len(d) > 0 {
+			_, _, wm := s.w.Sh.VerifC43ComponentModes()
+			wcWritable := s.c.WC && !wm.ReadOnly()
+			cause := "other(" + how + ")"
+			switch {
+			case s.modeSetByFailed:
+				cause = "reported-mode-was-set-by-a-SetMode-that-returned-an-error"
+			case wcWritable && s.lastErr:
+				cause = "write-cache-left-writable-by-a-failed-SetMode"
+			case wcWritable:
+				cause = "write-cache-writable-after-a-successful-SetMode"
+			}
+			return fmt.Sprintf("reported=%s:background-jobs-changed-stored-data:%s", mname(m), cause),
+				fmt.Sprintf("[%s] %s || shard reports %s (%s) but %s changed the persisted state: %v", s.c.name(), trail, mname(m), s.components(), strings.Join(bg, " + "), d)
+		}
+	}
 	if bad := s.battery(m, "x"); len(bad) > 0 {
 		p := bad[0]
 		return fmt.Sprintf("%s:reported=%s:%s=%s", how, mname(m), p.Name, p.Got),
@@ -461,7 +522,7 @@ func main() {
 	r := ev.Start("C43", ev.ModelChecking)
 	scratch = sw.NewDir("verif-c43-")
 	finish := func() { os.RemoveAll(scratch); r.Finish() }
-	maxDepth = 4
+	maxDepth = 3
 	if r.Thorough() {
 		maxDepth = 0 // until no new state appears (observed: depth 6, ~350 states)
 	}
@@ -520,7 +581,7 @@ func main() {
 		}
 	}
 	r.Exhaustive(exhaustive)
-	r.Rule(fmt.Sprintf("2 shards (without / with write-cache holding flushed and cached objects) x BFS over SetMode(m), m in {RW, RO, DEG, DRO}, each with one injected failure in {none, metabase open, blobstor close, blobstor open, blobstor init, write-cache directory} up to depth %d (0 = to fixpoint), deduplicated by (reported mode, actual component modes, on-disk files); after every step the probe battery and the return-to-read-write check run on that instance; non-trivial = new state", maxDepth))
+	r.Rule(fmt.Sprintf("2 shards (without / with write-cache holding flushed and cached objects) x BFS over SetMode(m), m in {RW, RO, DEG, DRO}, each with one injected failure in {none, metabase open, blobstor close, blobstor open, blobstor init, write-cache directory, every blobstor write fails while the switch runs} up to depth %d (0 = to fixpoint), deduplicated by (reported mode, actual component modes, on-disk files); after every step, on that instance: if the reported mode is read-only / degraded-read-only, one flush tick + GC pass + new-epoch event (unpaid container) must leave blobstor tree, write-cache tree, metabase logical content and write-cache accounting unchanged; then the probe battery; then the return-to-read-write check; non-trivial = new state", maxDepth))
 	r.Assume("probe objects accepted in degraded mode (no metabase) are not required to be visible after returning to read-write (docs/shard-modes.md warns about that mode)",
 		"failures are injected at the component boundary: bbolt OpenFile hook, a common.Storage wrapper around the FSTree, a regular file in place of the write-cache directory; one failure per step, healed before the next step",
 		"single-threaded: no requests race with the mode change")
